@@ -1,4 +1,5 @@
 import NbioVerif.Model.Resp
+import NbioVerif.Model.Own
 import NbioVerif.DrvCommon
 /-! respdrv: line-protocol driver of the HTTP response model (harness/cmd/hresp).  See the header of
 harness/cmd/hresp/main.go for the op and result formats. -/
@@ -80,6 +81,7 @@ structure DS where
   g : Cfg
   r : R
   ph : Phase
+  o : Own.O := {}
 
 def mkCfg (ws : List String) : Option Cfg := do
   let v ← field ws "v"
@@ -103,17 +105,23 @@ partial def loop (h : IO.FS.Stream) (s : DS) : IO Unit := do
     | .running =>
       let (r, o) := step s.g s.r op
       let rf := match op with | .readFrom .. => true | _ => false
+      -- the ownership twin runs in lockstep on the erased operation
+      let n0 := s.o.heap.trace.length
+      let (tw, two) := match Own.eraseOp s.g s.r op with
+        | some (e, top) => Own.step e s.o top
+        | none => (s.o, none)
+      let tr := if two == o || (two.isNone && o.isNone) then Own.traceSince tw.heap n0 else "!twin-desync"
       match o with
-      | some .panic => IO.println s!"{tag} panic"; loop h { s with r, ph := .dead }
-      | some w => IO.println s!"{tag} {showRes w} w={showW (opWrites s.r r rf)} tr=?"; loop h { s with r }
-      | none => IO.println s!"{tag} w={showW (opWrites s.r r rf)} tr=?"; loop h { s with r }
+      | some .panic => IO.println s!"{tag} panic"; loop h { s with r, o := tw, ph := .dead }
+      | some w => IO.println s!"{tag} {showRes w} w={showW (opWrites s.r r rf)} tr={tr}"; loop h { s with r, o := tw }
+      | none => IO.println s!"{tag} w={showW (opWrites s.r r rf)} tr={tr}"; loop h { s with r, o := tw }
     | .dead => IO.println "dead"; loop h s
     | .done => IO.println "done"; loop h s
     | .none => IO.println "bad-op"; loop h s
   match ws with
   | "C" :: "resp" :: rest =>
     match mkCfg rest with
-    | some g => IO.println "ok"; loop h { g := withHead g, r := {}, ph := .running }
+    | some g => IO.println "ok"; loop h { g := withHead g, r := {}, ph := .running, o := {} }
     | none => IO.println "bad-op"; loop h { s with ph := .none }
   | "C" :: _ => IO.println "bad-op"; loop h { s with ph := .none }
   | "H" :: _ :: v :: rest =>
@@ -148,8 +156,10 @@ partial def loop (h : IO.FS.Stream) (s : DS) : IO Unit := do
     match s.ph with
     | .running =>
       let (r, closed) := finish s.g s.r
-      IO.println s!"F w={showW (opWrites s.r r false)} {report r.wire.flatten} close={if closed then 1 else 0} tr=?"
-      loop h { s with r, ph := .done }
+      let n0 := s.o.heap.trace.length
+      let (tw, _) := Own.finish (Own.flushEnv s.g s.r) s.o
+      IO.println s!"F w={showW (opWrites s.r r false)} {report r.wire.flatten} close={if closed then 1 else 0} tr={Own.traceSince tw.heap n0}"
+      loop h { s with r, o := tw, ph := .done }
     | .dead => IO.println "F dead"; loop h { s with ph := .done }
     | .done => IO.println "done"; loop h s
     | .none => IO.println "bad-op"; loop h s
